@@ -107,7 +107,22 @@ func Gen(prop, tier string, seed uint64) *kernel.Plan {
 		if g.Chance(1, 2) {
 			evs = append(evs, c.localEv(creator))
 		}
-		evs = append(evs, Ev{T: "sync", A: creator})
+		first := Ev{T: "sync", A: creator}
+		if (prop == "C19" || prop == "C11") && g.Chance(1, 5) {
+			// the creating commit succeeds but its snapshot is not written: a datatype without snapshot
+			first.MF = append(first.MF, MongoFault{At: g.Range(8, 12), Kind: []string{"errBefore", "errAfter"}[g.Intn(2)]})
+		}
+		switch {
+		case prop == "C07" && g.Chance(1, 5):
+			// the creating push is stored but its answer never arrives
+			first.Resp = "drop"
+		case prop == "C08" && g.Chance(1, 5):
+			first.MF = append(first.MF, MongoFault{At: g.Range(5, 12), Kind: []string{"errBefore", "errAfter"}[g.Intn(2)]})
+		}
+		evs = append(evs, first)
+		if prop == "C19" && c.kindOf[k] == "doc" && g.Chance(1, 3) {
+			evs = append(evs, Ev{T: "patch", A: creator, K: k, S: g.U64() % 100000})
+		}
 		for a := 0; a < nAct; a++ {
 			if a == creator || g.Chance(1, 5) {
 				continue
@@ -220,6 +235,9 @@ func Gen(prop, tier string, seed uint64) *kernel.Plan {
 				evs = append(evs, Ev{T: "sync", A: a})
 			}
 		}
+		if (prop == "C05" || prop == "C06" || prop == "C08" || prop == "C07") && g.Chance(1, 40) {
+			evs = append(evs, Ev{T: "burst", A: a, D: g.Intn(3), N: g.Intn(150)})
+		}
 		if g.Chance(1, 25) {
 			// late subscriber
 			k := c.keys[g.Intn(len(c.keys))]
@@ -251,11 +269,19 @@ func (c *genCtx) decorate(e *Ev) {
 		}
 	case "C08":
 		if g.Chance(1, 3) {
-			e.MF = append(e.MF, MongoFault{At: g.Range(1, 12), Kind: []string{"errBefore", "errAfter", "partial", "crashBefore", "crashAfter"}[g.Intn(5)]})
+			e.MF = append(e.MF, MongoFault{At: g.Range(1, 14), Kind: []string{"errBefore", "errAfter", "partial", "crashBefore", "crashAfter"}[g.Intn(5)]})
+		}
+	case "C19":
+		// a commit that fails half way right before a REST patch
+		if g.Chance(1, 6) {
+			e.MF = append(e.MF, MongoFault{At: g.Range(5, 9), Kind: []string{"errAfter", "partial", "errBefore"}[g.Intn(3)]})
 		}
 	case "C11":
 		if g.Chance(1, 2) {
 			e.Post = "lag"
+		}
+		if g.Chance(1, 10) {
+			e.MF = append(e.MF, MongoFault{At: g.Range(5, 9), Kind: []string{"errAfter", "partial", "errBefore"}[g.Intn(3)]})
 		}
 		if g.Chance(1, 8) {
 			e.MF = append(e.MF, MongoFault{At: g.Range(6, 14), Kind: "slow"})
